@@ -963,6 +963,14 @@ func fieldAtoms(cond ssa.Value, edge bool) []string {
 	switch b.Op {
 	case token.EQL, token.NEQ:
 		eq := (b.Op == token.EQL) == edge
+		if k, ok := constInt(b.Y); ok && k == 0 {
+			if f := fieldOf(b.X); strings.HasPrefix(f, "len(") {
+				if eq {
+					return []string{f + "==0"}
+				}
+				return []string{f + ">0"}
+			}
+		}
 		if isNilConst(b.Y) {
 			if f := fieldOf(b.X); f != "" {
 				if eq {
